@@ -260,6 +260,35 @@ func (ex *Exec) writeLoc(st *State, loc *Loc, val Value) {
 	}
 }
 
+// ownWriteCheck: stores into the keys a contract reserves (ownwrites) must hit objects this activation allocated.
+func (ex *Exec) ownWriteCheck(fr *Frame, st *State, loc *Loc, fname string, pos token.Pos) {
+	if ex.topC == nil || len(ex.topC.OwnWrites) == 0 || ex.inSpec > 0 || loc.Kind == LLocal || loc.Kind == LGlobal {
+		return
+	}
+	hit := false
+	n := len(layout(loc.T))
+	for j := 0; j < n && !hit; j++ {
+		for _, p := range ex.topC.OwnWrites {
+			if strings.HasPrefix(loc.Keys[loc.Off+j], p) {
+				hit = true
+			}
+		}
+	}
+	if !hit {
+		return
+	}
+	var entry *Term
+	for f := fr; f != nil; f = f.parent {
+		if f.entry != nil {
+			entry = f.entry.wm
+		}
+	}
+	if entry == nil {
+		return
+	}
+	ex.prove(shortName(ex.topFn.String()), st, "ownwrite", ex.srcLabel(pos), Gt(loc.Ref, entry), "store into shared storage ("+loc.Keys[loc.Off]+"): the target must be an object allocated by this statement", pos)
+}
+
 func (ex *Exec) allocRef(st *State) *Term {
 	if ex.inSpec > 0 {
 		// allocation while evaluating a specification expression: a reference of its own, never the
@@ -495,6 +524,9 @@ func (ex *Exec) execBody(fr *Frame, st0 *State) ([]Value, *State) {
 				}
 				st.pc = False
 			default:
+				if fr.depth > 0 {
+					ex.budget--
+				}
 				ex.instr(fr, st, in, fname)
 			}
 		}
@@ -845,6 +877,7 @@ func (ex *Exec) instr(fr *Frame, st *State, in ssa.Instruction, fname string) {
 			ex.warn("store of %s into %s: component mismatch in %s", typeStr(v.T), typeStr(loc.T), fname)
 			return
 		}
+		ex.ownWriteCheck(fr, st, loc, fname, i.Pos())
 		ex.writeLoc(st, loc, v)
 	case *ssa.UnOp:
 		ex.unop(fr, st, i, fname)
